@@ -1030,19 +1030,18 @@ fn main() {
 		pool.extend(short_pool(b, [0, 0]));
 		pool.extend(skip_pool(b));
 		let mut t = vec![WTask { family: "chanmsgs", scn: i, mode: Mode::Clean, prefix: vec![], pool: None }];
-		if thorough {
-			let lo = init_start(b);
-			upto_k("chanmsgs", i, pool, 1, &mut t);
+		upto_k("chanmsgs", i, pool, 1, &mut t);
+		families.push(("chanmsgs", t));
+		if thorough && name == "seqchan" {
+			// all pairs of cuts / short writes from the first message record on
+			let lo = [b.unit_start(A, 3), b.unit_start(B, 2)];
 			let mut p2 = cut_pool(b, lo);
 			p2.extend(short_pool(b, lo));
 			let mut t2 = Vec::new();
-			upto_k("chanmsgs", i, p2, 2, &mut t2);
+			upto_k("chanmsgs-pairs", i, p2, 2, &mut t2);
 			t2.retain(|x| !x.prefix.is_empty());
-			t.extend(t2);
-		} else {
-			upto_k("chanmsgs", i, pool, 1, &mut t);
+			families.push(("chanmsgs-pairs", t2));
 		}
-		families.push(("chanmsgs", t));
 	}
 	{
 		// F4: back-pressure: both sides queue 14 messages; a blocked writer with >= 12 queued
@@ -1148,7 +1147,8 @@ fn main() {
 			for bit in s * 8..e * 8 {
 				let off = bit / 8;
 				let in_body = off >= s + 18 && off < e - 16;
-				if !in_body || thorough || bit % 64 == 0 {
+				let every = if !thorough { 64 } else if d == A { 1 } else { 8 };
+				if !in_body || bit % every == 0 {
 					devs.push(Dev::Flip { dir: d, bit });
 				}
 			}
@@ -1257,7 +1257,9 @@ fn main() {
 	families.sort_by_key(|(f, _)| match *f {
 		"hs<=2" => 1,
 		"seq<=2" => 2,
-		"hs-3cuts" => 3,
+		"chanmsgs-pairs" => 3,
+		"flip-big" if thorough => 4,
+		"hs-3cuts" => 5,
 		_ => 0,
 	});
 	let mut samples: Vec<Value> = Vec::new();
@@ -1265,7 +1267,7 @@ fn main() {
 	let mut raw_runs = 0u64;
 	for phase in 0..2 {
 		for (fam, tasks) in &families {
-			let late = matches!(*fam, "hs<=2" | "seq<=2" | "hs-3cuts");
+			let late = matches!(*fam, "hs<=2" | "seq<=2" | "hs-3cuts" | "chanmsgs-pairs") || (thorough && *fam == "flip-big");
 			if !want(fam) || late != (phase == 1) {
 				continue;
 			}
@@ -1412,7 +1414,7 @@ fn main() {
 		"bounds",
 		json!({
 			"quick": "hs: all <=2 deviations (cuts, short writes incl. 0 bytes, skipped process_events, delayed writable); seq: all singles, pairs from the Init records on; chan/gossip msgs: singles; pause: singles + short x delay + short(A) x cut/short(B) stride 3; big: selected offsets; rotation: every cut/short in records 498..502 and 998..1002; flips: every bit of acts and small records, every 64th body bit of the 65535-byte record; trunc: every offset (small), selected (big); splices: replay/reflect/drop/reorder of whole units",
-			"thorough": "adds every triple of cuts over handshake+Init, all pairs for seq and chan msgs, all offsets and all body bits of the max-size record, 2505-message runs (5 rotations)",
+			"thorough": "adds every triple of cuts over handshake+Init, all pairs for seq, pairs from the first message record on for the channel-message sequence, all offsets of the max-size record, all of its body bits (A->B; every 8th B->A), 2505-message runs (5 rotations), all 65536 message types before/after Init",
 		}),
 	);
 	for s in samples {
